@@ -66,7 +66,7 @@ def main(tier, replay):
     v = Verdict(PID)
     cov = {"checker_cmd": "coq/mk.sh theories/Union/Props.vo (coqc 8.16.1, full .vo build) + Print Assumptions per theorem",
            "trusted_base": vlib.TRUSTED_BASE + [
-               "modelled, not verified: the buffer's ordered index (ART / red-black tree) is abstracted to 'newest value-log entry of the key' and an ascending list; value-log positions are entry counts instead of byte offsets; Size is modelled (counter updates as in art.go) and compared on every run but has no theorem; key length limit, Dirty, memory hooks not modelled",
+               "modelled, not verified: the buffer's ordered index (ART / red-black tree) is abstracted to 'newest value-log entry of the key' and an ascending list; value-log positions are entry counts instead of byte offsets; key length limit, Dirty, SnapshotSeqNo are modelled and compared without a theorem; the pipelined flush protocol (generations, thresholds, errors) and memory hooks are not modelled",
                "the Go driver's discipline tracker decides which checkpoints are still legal to revert to (a checkpoint dies when the log is truncated below it; reverting below the top staging level is API misuse)"]}
     gate = vlib.coq_gate(PID, AREAS, PROPS)
     cov.update(obligations=gate["obligations"], discharged=gate["discharged"], theorems=gate["theorems"],
@@ -162,7 +162,7 @@ def main(tier, replay):
                rule="random programs (seeded) of set/delete (with flag ops, some probing a stale buffer iterator)/update-flags/get/get-flags/len+size/batch-get(with duplicate keys)/iter/iter-reverse/iter-with-flags/snapshot get+iter/history/inspect-stage/limits/staging/release/cleanup/checkpoint/revert, "
                     "~40 ops (every 10th 120), key pool of 3-11 adversarial keys per program (empty key, 00/ff runs, prefix chains, a 23-byte common prefix), values of length 1-3 "
                     "(same-length overwrites frequent, in place or appended depending on staging position and lastCheckpoint) and some of 1.2-4 KB (cross arena blocks), arbitrary bounds incl. lower>upper; directed F03 regression programs (same-length overwrite after a checkpoint, plain / in a level / after release / two checkpoints) on every target; "
-                    "targets: KVUnionStore+ART, KVUnionStore+RBT over a scripted snapshot, real KVTxn over mocktikv (several regions with adversarial split keys, region splits in the middle of a program, open-ended reverse scans, repeated batch gets on a warm snapshot cache) with committed base data; "
+                    "targets: KVUnionStore+ART, KVUnionStore+RBT over a scripted snapshot, real KVTxn over mocktikv (several regions with adversarial split keys, region splits in the middle of a program, open-ended reverse scans, repeated batch gets on a warm snapshot cache) with committed base data; real PipelinedMemDB with a scripted flush function (flush start / completion / wait schedules, batch-get cache); "
                     "distinct_nontrivial = distinct (target, read op, arguments, non-empty result) tuples plus effective cleanup/revert/release executions",
                samples=samples, traces_validated_against_impl=stats.get("programs", 0), programs=stats.get("programs", 0),
                ops_compared_with_model=stats.get("cases", 0), oracle_evaluations={k: n for k, (n, _) in pstat.items()},
